@@ -53,3 +53,7 @@ Theorem C19gen_for_is_fold_left : forall (A S R : Type) (F : S -> A -> py_flow S
                  end.
 Proof. exact @PyCtrlLib.py_for_fold_left. Qed.
 Print Assumptions C19gen_for_is_fold_left.
+
+Theorem C19gen_all_translated : gen_untranslated_composition = [].
+Proof. exact composition_all_translated. Qed.
+Print Assumptions C19gen_all_translated.
